@@ -4,6 +4,7 @@
 //	              codecs (Decode, header/body mutators, SetRequestId+Encode as stream.go does) and records what the
 //	              real code did; TLC validates the trace against CodecTrace.tla.
 //	-mode relay : TCP proxy listener of an in-process MOSN, chunk/close schedules (see relay.go)
+//	-mode xe2e  : xprotocol listeners of an in-process MOSN, pipelined bursts of frames of the enumerated shapes (see xe2e.go)
 //	-mode http  : HTTP/1 and HTTP/2 listeners of an in-process MOSN, request targets/headers/bodies (see http.go)
 package main
 
@@ -16,7 +17,7 @@ import (
 )
 
 func main() {
-	mode := flag.String("mode", "codec", "codec|relay|http")
+	mode := flag.String("mode", "codec", "codec|relay|http|xe2e")
 	cases := flag.String("cases", "", "cases file (JSON lines printed by TLC)")
 	trace := flag.String("trace", "", "trace output (NDJSON)")
 	shard := flag.Int("shard", 0, "this shard")
@@ -32,6 +33,8 @@ func main() {
 		runRelay(*cases, *trace, *shard, *shards)
 	case "http":
 		runHTTP(*cases, *trace, *shard, *shards)
+	case "xe2e":
+		runXE2E(*cases, *trace, *shard, *shards)
 	default:
 		fmt.Fprintln(os.Stderr, "unknown mode")
 		os.Exit(3)
